@@ -20,11 +20,12 @@ func init() { registry["C15"] = runC15 }
 type stratCfg struct {
 	Strategy int // 0 RR, 1 MaxLen, 2 MinLen
 	Kinds    []QK
-	Pop      [][]int // initial priorities per queue
+	Pop      [][]int  // initial priorities per queue
 	Adds     [][2]int // interleaved submissions: (after how many dispatches, queue)
 	Binds    [][2]int // further queues bound in the middle of the run: (after how many dispatches, kind)
 	Closes   [][2]int // queues closed in the middle of the run once they hold nothing: (after how many dispatches, queue)
 	Faults   [][2]int // transient dequeue faults of adapter-backed queues: (queue, which dequeue call)
+	Conc     int
 }
 
 var stratNames = []string{"RoundRobin", "MaxLen", "MinLen"}
@@ -34,11 +35,11 @@ func (c stratCfg) String() string {
 	for i, k := range c.Kinds {
 		ks = append(ks, fmt.Sprintf("%s:%d", k, len(c.Pop[i])))
 	}
-	return fmt.Sprintf("strategy=%s queues=[%s] interleaved=%d lateBinds=%v closes=%v deqFaults=%v", stratNames[c.Strategy], strings.Join(ks, " "), len(c.Adds), c.Binds, c.Closes, c.Faults)
+	return fmt.Sprintf("strategy=%s conc=%d queues=[%s] interleaved=%d lateBinds=%v closes=%v deqFaults=%v", stratNames[c.Strategy], c.Conc, strings.Join(ks, " "), len(c.Adds), c.Binds, c.Closes, c.Faults)
 }
 
 func drawStrat(r *Rng) stratCfg {
-	c := stratCfg{Strategy: r.Intn(3)}
+	c := stratCfg{Strategy: r.Intn(3), Conc: Pick(r, 1, 1, 1, 2, 3, 4)}
 	nq := 2 + r.Intn(5)
 	total := 0
 	for i := 0; i < nq; i++ {
@@ -78,7 +79,10 @@ func drawStrat(r *Rng) stratCfg {
 		for qi, k := range c.Kinds {
 			if k.Adapter() && len(c.Pop[qi]) > 0 && r.Chance(60) {
 				for i := 0; i < 1+r.Intn(2); i++ {
-					c.Faults = append(c.Faults, [2]int{qi, 1 + r.Intn(len(c.Pop[qi])+1)})
+					at := 1 + r.Intn(len(c.Pop[qi])+1)
+					for l := 0; l < Pick(r, 1, 1, 2, 3); l++ {
+						c.Faults = append(c.Faults, [2]int{qi, at + l})
+					}
 				}
 			}
 		}
@@ -102,7 +106,7 @@ func epStrat(c *RunCtx, cfg stratCfg) *Result {
 	k := NewKit(e, total)
 	out := RunBubble(c.T, func(bid string) {
 		strat := []varmq.Strategy{varmq.RoundRobin, varmq.MaxLen, varmq.MinLen}[cfg.Strategy]
-		s := NewSubject(WPlain, k.Work, 1, varmq.WithStrategy(strat))
+		s := NewSubject(WPlain, k.Work, cfg.Conc, varmq.WithStrategy(strat))
 		qs := make([]*BoundQ, nq)
 		for i, kind := range cfg.Kinds {
 			var led *Ledger
@@ -117,20 +121,6 @@ func epStrat(c *RunCtx, cfg stratCfg) *Result {
 			qs[i] = s.Bind(kind, led)
 		}
 		closed := map[int]bool{}
-		deqFails := func() int {
-			n := 0
-			for _, q := range qs {
-				if q.Led != nil {
-					for _, c := range q.Led.CallsCopy() {
-						if c.Kind == "deq-fail" {
-							n++
-						}
-					}
-				}
-			}
-			return n
-		}
-		seenFails := 0
 		s.W.Pause()
 		model := make([][]*sJob, nq)
 		owner := map[int]int{}
@@ -179,129 +169,214 @@ func epStrat(c *RunCtx, cfg stratCfg) *Result {
 		cursor := 0
 		dispatched := 0
 		perQueue := make([]int, nq)
-		running := -1
-		var order []string
-		observe := func(where string) bool {
-			// which job is executing now?
-			cur := -1
-			for _, r := range k.Recs {
-				if r.Enter.Load() != 0 && r.Exit.Load() == 0 {
-					if cur != -1 {
-						e.Fail("C02", "two-running-at-concurrency-1", "", where)
-						return false
-					}
-					cur = r.Idx
+		deqCalls := map[int]int{} // dequeue calls made so far on each adapter-backed queue (model)
+		isFault := func(qi, call int) bool {
+			for _, f := range cfg.Faults {
+				if f[0] == qi && f[1] == call {
+					return true
 				}
+			}
+			return false
+		}
+		executing := map[int]bool{}
+		var order []string
+		// observe compares the jobs that started since the last observation with the reference selector
+		// applied, one dispatch after the other, to the lengths of the moment.
+		observe := func(where string) bool {
+			var started []int
+			nowExec := 0
+			for _, r := range k.Recs[:next] {
+				if r.Enter.Load() != 0 && r.Exit.Load() == 0 {
+					nowExec++
+					if !executing[r.Idx] {
+						executing[r.Idx] = true
+						started = append(started, r.Idx)
+					}
+				}
+			}
+			if nowExec > cfg.Conc {
+				e.Fail("C02", "more-in-flight-than-limit", "strategy", fmt.Sprintf("%s: %d executing at concurrency %d", where, nowExec, cfg.Conc))
+				return false
 			}
 			lens := make([]int, nq)
-			anyPending := false
+			pending := 0
 			for qi := range model {
 				lens[qi] = len(model[qi])
-				anyPending = anyPending || lens[qi] > 0
+				pending += lens[qi]
 			}
-			if cur == -1 {
-				if anyPending {
-					e.Fail("C03", "no-progress-at-quiescence", "strategy", fmt.Sprintf("%s: nothing executes although queues hold %v", where, lens))
-					e.Fail("C15", "starved", stratNames[cfg.Strategy], fmt.Sprintf("%s: nothing executes although queues hold %v", where, lens))
-					return false
+			kNew := len(started)
+			if want := min(cfg.Conc-(nowExec-kNew), pending); kNew != want {
+				det := fmt.Sprintf("%s: %d jobs started, %d expected (limit %d, %d were executing, queues hold %v)", where, kNew, want, cfg.Conc, nowExec-kNew, lens)
+				if kNew < want {
+					e.Fail("C03", "no-progress-at-quiescence", "strategy", det)
+					e.Fail("C15", "starved", stratNames[cfg.Strategy], det)
+				} else {
+					e.Fail("C15", "dispatch-count", stratNames[cfg.Strategy], det)
 				}
-				running = -1
+				return false
+			}
+			if kNew == 0 {
 				return true
 			}
-			qi := owner[cur]
-			order = append(order, fmt.Sprintf("q%d:%d", qi, cur))
-			// a dequeue that failed since the last observation made the dispatcher move on to another
-			// queue: the selection of this round is not determined by the lengths alone
-			strategy := cfg.Strategy
-			if nf := deqFails(); nf != seenFails {
-				seenFails = nf
-				e.Ev("deq-faults", nf)
-				strategy = -1
-				cursor = (qi + 1) % nq
+			got := make([]int, nq)
+			for _, d := range started {
+				got[owner[d]]++
+				order = append(order, fmt.Sprintf("q%d:%d", owner[d], d))
 			}
-			// allowed by the strategy?
-			switch strategy {
+			for qi := range got {
+				if got[qi] > lens[qi] {
+					e.Fail("C15", "more-than-pending", kinds[qi].String(), fmt.Sprintf("%s: %d jobs of queue %d started, it held %d", where, got[qi], qi, lens[qi]))
+					return false
+				}
+			}
+			sim := append([]int{}, lens...)
+			switch cfg.Strategy {
 			case 0:
-				want := -1
-				for d := 0; d < nq; d++ {
-					x := (cursor + d) % nq
-					if lens[x] > 0 {
-						want = x
+				// exact: the cursor, and the dequeue calls that are going to be refused, are known
+				want := make([]int, nq)
+				cur := cursor
+				calls := map[int]int{}
+				for qi, n := range deqCalls {
+					calls[qi] = n
+				}
+				for step := 0; step < kNew; step++ {
+					for guard := 0; ; guard++ {
+						x := -1
+						for d := 0; d < nq; d++ {
+							if y := (cur + d) % nq; sim[y] > 0 {
+								x = y
+								break
+							}
+						}
+						if x < 0 || guard > 10000 {
+							e.Fail(c.Prop, "harness-panic", "strategy-model", "reference selector found nothing to dispatch")
+							return false
+						}
+						cur = (x + 1) % nq
+						if qs[x].Led != nil {
+							calls[x]++
+							if isFault(x, calls[x]) {
+								continue // refused: the dispatcher reports the error and asks the selector again
+							}
+						}
+						want[x]++
+						sim[x]--
 						break
 					}
 				}
-				if qi != want {
-					e.Fail("C15", "round-robin", kinds[qi].String(), fmt.Sprintf("%s: took from queue %d (%s), round robin from cursor %d over lengths %v selects queue %d; order so far %v", where, qi, kinds[qi], cursor, lens, want, order))
-					return false
-				}
-				cursor = (qi + 1) % nq
-			case 1:
-				mx := 0
-				for _, l := range lens {
-					mx = max(mx, l)
-				}
-				if lens[qi] != mx {
-					e.Fail("C15", "max-len", "", fmt.Sprintf("%s: took from queue %d with %d pending, lengths %v", where, qi, lens[qi], lens))
-					return false
-				}
-			case 2:
-				mn := 1 << 30
-				for _, l := range lens {
-					if l > 0 {
-						mn = min(mn, l)
+				for qi := range want {
+					if want[qi] != got[qi] {
+						e.Fail("C15", "round-robin", kinds[qi].String(), fmt.Sprintf("%s: %d dispatches took %v jobs per queue, round robin from cursor %d over lengths %v (refused dequeues %v, calls so far %v) takes %v; order so far %v", where, kNew, got, cursor, lens, cfg.Faults, deqCalls, want, order))
+						return false
 					}
 				}
-				if lens[qi] != mn {
-					e.Fail("C15", "min-len", "", fmt.Sprintf("%s: took from queue %d with %d pending, lengths %v", where, qi, lens[qi], lens))
-					return false
+				cursor = cur
+				deqCalls = calls
+			case 1, 2:
+				// taking from any longest (shortest non-empty) queue k times leaves the same multiset of
+				// lengths whichever way ties are broken, and a refused dequeue is simply retried
+				for step := 0; step < kNew; step++ {
+					x := -1
+					for qi, l := range sim {
+						if l == 0 {
+							continue
+						}
+						if x < 0 || (cfg.Strategy == 1 && l > sim[x]) || (cfg.Strategy == 2 && l < sim[x]) {
+							x = qi
+						}
+					}
+					sim[x]--
+				}
+				rem := make([]int, nq)
+				for qi := range rem {
+					rem[qi] = lens[qi] - got[qi]
+				}
+				a, b := append([]int{}, sim...), append([]int{}, rem...)
+				sort.Ints(a)
+				sort.Ints(b)
+				for i := range a {
+					if a[i] != b[i] {
+						rule := "max-len"
+						if cfg.Strategy == 2 {
+							rule = "min-len"
+						}
+						e.Fail("C15", rule, "", fmt.Sprintf("%s: %d dispatches took %v jobs per queue from lengths %v and left %v; the strategy leaves the lengths %v (in some order)", where, kNew, got, lens, rem, sim))
+						return false
+					}
 				}
 			}
-			// head of that queue's order?
-			if head := model[qi][0]; head.data != cur {
-				e.Fail("C04", "wrong-job-dispatched", kinds[qi].String(), fmt.Sprintf("%s: queue %d handed out job %d, its order says %d", where, qi, cur, head.data))
-				e.Fail("C15", "within-queue-order", kinds[qi].String(), fmt.Sprintf("%s: queue %d handed out job %d, its order says %d", where, qi, cur, head.data))
-				return false
+			// the jobs taken from a queue are the first ones of its order
+			for qi, n := range got {
+				if n == 0 {
+					continue
+				}
+				heads := map[int]bool{}
+				for _, h := range model[qi][:n] {
+					heads[h.data] = true
+				}
+				for _, d := range started {
+					if owner[d] == qi && !heads[d] {
+						e.Fail("C04", "wrong-job-dispatched", kinds[qi].String(), fmt.Sprintf("%s: queue %d handed out job %d, its order says %d first", where, qi, d, model[qi][0].data))
+						e.Fail("C15", "within-queue-order", kinds[qi].String(), fmt.Sprintf("%s: queue %d handed out job %d, its order says %d first", where, qi, d, model[qi][0].data))
+						return false
+					}
+				}
+				model[qi] = model[qi][n:]
+				perQueue[qi] += n
 			}
-			model[qi] = model[qi][1:]
-			perQueue[qi]++
-			running = cur
-			dispatched++
+			dispatched += kNew
 			return true
 		}
 		s.W.Resume()
 		synctest.Wait()
 		ok := observe("after resume")
-		for ok && running >= 0 {
-			for _, b := range cfg.Binds {
-				if b[0] == dispatched {
-					kind := QK(b[1])
-					var led *Ledger
-					if kind.Adapter() {
-						led = NewLedger(e, kind.Priority())
+		lastSeen := -1
+		for ok && len(executing) > 0 {
+			for lastSeen < dispatched {
+				lastSeen++
+				for _, b := range cfg.Binds {
+					if b[0] == lastSeen {
+						kind := QK(b[1])
+						var led *Ledger
+						if kind.Adapter() {
+							led = NewLedger(e, kind.Priority())
+						}
+						qs = append(qs, s.Bind(kind, led))
+						kinds = append(kinds, kind)
+						model = append(model, nil)
+						perQueue = append(perQueue, 0)
+						nq++
+						e.Ev("late-bind", kind.String())
 					}
-					qs = append(qs, s.Bind(kind, led))
-					kinds = append(kinds, kind)
-					model = append(model, nil)
-					perQueue = append(perQueue, 0)
-					nq++
-					e.Ev("late-bind", kind.String())
 				}
-			}
-			for _, a := range cfg.Adds {
-				if a[0] == dispatched && !closed[a[1]%nq] {
-					add(a[1]%nq, 0)
+				for _, a := range cfg.Adds {
+					if a[0] == lastSeen && !closed[a[1]%nq] {
+						add(a[1]%nq, 0)
+					}
 				}
-			}
-			for _, cl := range cfg.Closes {
-				if qi := cl[1] % nq; cl[0] == dispatched && len(model[qi]) == 0 && !closed[qi] {
-					closed[qi] = true
-					qs[qi].Base.Close()
-					e.Ev("close-empty-queue", qi)
+				for _, cl := range cfg.Closes {
+					if qi := cl[1] % nq; cl[0] == lastSeen && len(model[qi]) == 0 && !closed[qi] {
+						closed[qi] = true
+						qs[qi].Base.Close()
+						e.Ev("close-empty-queue", qi)
+					}
 				}
 			}
 			synctest.Wait()
+			// submissions made while a slot was free are dispatched at once
+			if ok = observe(fmt.Sprintf("after the calls at dispatch %d", dispatched)); !ok {
+				break
+			}
 			checkSum(fmt.Sprintf("dispatch %d", dispatched))
-			close(k.Recs[running].Gate)
+			// let the oldest executing job finish
+			oldest := -1
+			for d := range executing {
+				if oldest < 0 || k.Recs[d].Enter.Load() < k.Recs[oldest].Enter.Load() {
+					oldest = d
+				}
+			}
+			delete(executing, oldest)
+			close(k.Recs[oldest].Gate)
 			synctest.Wait()
 			ok = observe(fmt.Sprintf("dispatch %d", dispatched+1))
 		}
